@@ -1,6 +1,9 @@
 //! C09: `TypeAggregator::aggregate` over multisets of 2-5 import requirements coming from
 //! separate (or one shared) `Types` collections, in ALL permutations, with one shared
 //! `SubtypeChecker`.  One case = one multiset with the observation of every permutation.
+//! Shard 0 of every run starts with the fixed witnesses W1..W5 of `c09x.rs` (`type` exports of
+//! interface / component type, nested instance exports, flat instances), emitted like any
+//! generated case.
 //!
 //! case `agg`: <n> (<types> <name> <kind>)*n  <p> ( <perm: i0.i1...> <res> )*p
 //!   res = `ok` <aggregator types> <k> (<import name> <kind>)*k <canonical name of contributor j>*n
@@ -153,31 +156,125 @@ fn item(n: &str, v: usize) -> D {
     }
 }
 
-fn rand_flat(r: &mut Rng, conflict: bool) -> Vec<(String, D)> {
+fn f0() -> D {
+    func(false, &[], None)
+}
+
+/// a non-empty subset of the function exports `a`, `b`, `c` (all `func()`, so two subsets are
+/// always compatible and usually differ in width); with `conflict` one of them is sometimes
+/// given an incompatible signature
+fn rand_abc(r: &mut Rng, conflict: bool) -> Vec<(String, D)> {
+    let mask = 1 + r.below(7);
+    let mut es = Vec::new();
+    for (bit, n) in ["a", "b", "c"].iter().enumerate() {
+        if mask & (1 << bit) != 0 {
+            let d = if conflict && r.chance(1, 5) { func(false, &[("x", u8_())], None) } else { f0() };
+            es.push((n.to_string(), d));
+        }
+    }
+    es
+}
+
+/// which `type` exports of interface / component type `rand_flat` adds
+#[derive(Clone, Copy)]
+struct Extras {
+    /// `t: type instance{..}` of varying width with probability 1/3
+    t: bool,
+    /// `w: type component{..}` of varying width with probability 1/3 (only in the ~1/8 of the
+    /// cases chosen for it, about 1/20 of all instance requirements: a known finding family
+    /// whose SPEC verdicts are tagged per case, see notes/C09.md)
+    w: bool,
+}
+
+const NO_EXTRAS: Extras = Extras { t: false, w: false };
+
+fn rand_flat(r: &mut Rng, conflict: bool, extras: Extras) -> Vec<(String, D)> {
     let mut names = vec!["a", "b", "c", "d", "e"];
     r.shuffle(&mut names);
     let k = r.below(4);
     names.truncate(k.max(if r.chance(1, 6) { 0 } else { 1 }));
-    names
+    let mut es: Vec<(String, D)> = names
         .into_iter()
         .map(|n| {
             let v = if conflict && r.chance(1, 5) { 2 } else { r.below(2) };
             (n.to_string(), item(n, v))
         })
-        .collect()
+        .collect();
+    if extras.t && r.chance(1, 3) {
+        let pos = r.below(es.len() + 1);
+        es.insert(pos, ("t".to_string(), D::Type(Box::new(D::Instance(rand_abc(r, conflict))))));
+    }
+    if extras.w && r.chance(1, 3) {
+        let pos = r.below(es.len() + 1);
+        es.insert(pos, ("w".to_string(), D::Type(Box::new(D::Component(vec![], rand_abc(r, false))))));
+    }
+    es
 }
 
-fn rand_instance(r: &mut Rng, depth: usize, conflict: bool) -> D {
-    let mut es = rand_flat(r, conflict);
+fn rand_instance(r: &mut Rng, depth: usize, conflict: bool, extras: Extras) -> D {
+    let mut es = rand_flat(r, conflict, extras);
     if depth > 0 {
         for n in ["x", "y"] {
             if r.chance(1, 2) {
                 let pos = r.below(es.len() + 1);
-                es.insert(pos, (n.to_string(), rand_instance(r, depth - 1, conflict)));
+                es.insert(pos, (n.to_string(), rand_instance(r, depth - 1, conflict, extras)));
             }
         }
     }
     D::Instance(es)
+}
+
+/// `type` exports of interface (`t`) / component (`w`) type inside instance requirements:
+/// (path, kind, sorted export names of the type)
+fn type_export_shapes(d: &D, path: &str, acc: &mut Vec<(String, char, Vec<String>)>) {
+    if let D::Instance(es) = d {
+        for (n, e) in es {
+            let p = format!("{path}/{n}");
+            match e {
+                D::Type(inner) => match &**inner {
+                    D::Instance(xs) => {
+                        let mut ns: Vec<String> = xs.iter().map(|x| x.0.clone()).collect();
+                        ns.sort();
+                        acc.push((p, 'i', ns));
+                    }
+                    D::Component(_, xs) => {
+                        let mut ns: Vec<String> = xs.iter().map(|x| x.0.clone()).collect();
+                        ns.sort();
+                        acc.push((p, 'c', ns));
+                    }
+                    _ => {}
+                },
+                D::Instance(_) => type_export_shapes(e, &p, acc),
+                _ => {}
+            }
+        }
+    }
+}
+
+fn count_type_export_shapes(out: &mut Out, reqs_d: &[(String, D)]) {
+    let mut acc = Vec::new();
+    for (_, d) in reqs_d {
+        type_export_shapes(d, "", &mut acc);
+    }
+    for (kind, label) in [('i', "interface"), ('c', "component")] {
+        let of_kind: Vec<&(String, char, Vec<String>)> = acc.iter().filter(|x| x.1 == kind).collect();
+        if of_kind.is_empty() {
+            continue;
+        }
+        out.count(&format!("shape:type-export-of-{label}-type"));
+        if of_kind.iter().any(|x| x.0.matches('/').count() > 1) {
+            out.count(&format!("shape:type-export-of-{label}-type:nested"));
+        }
+        // two contributors offer the export at the same path with different widths
+        let disagree = of_kind.iter().any(|x| of_kind.iter().any(|y| x.0 == y.0 && x.2 != y.2));
+        let shared = of_kind.iter().enumerate().any(|(i, x)| of_kind.iter().skip(i + 1).any(|y| x.0 == y.0));
+        if shared {
+            out.count(&format!("shape:type-export-of-{label}-type:in-two-contributors"));
+        }
+        if disagree {
+            out.count(&format!("shape:type-export-of-{label}-type:different-widths"));
+        }
+    }
 }
 
 const VERSIONS: [&str; 9] = ["0.2.0", "0.2.1", "0.2.5", "0.3.0", "0.3.2", "1.0.0", "1.1.0", "1.1.2", "2.0.0"];
@@ -198,6 +295,7 @@ fn gen_structural(out: &mut Out, r: &mut Rng) {
     let shared_collection = r.chance(1, 4);
     let bias = r.below(2);
     let versioned = r.chance(1, 3);
+    let extras = Extras { t: true, w: r.chance(1, 8) };
     let mut shared = Types::default();
     let mut reqs_d: Vec<(String, D)> = Vec::new();
     for _ in 0..n {
@@ -205,16 +303,17 @@ fn gen_structural(out: &mut Out, r: &mut Rng) {
         let d = match shape {
             0 => item(["a", "b"][r.below(2)], if conflict && r.chance(1, 3) { 2 } else { r.below(2) }),
             1 => item(["c", "d", "e"][r.below(3)], if conflict && r.chance(1, 3) { 2 } else { r.below(2) }),
-            2 | 3 | 4 => D::Instance(rand_flat(r, conflict)),
-            5 | 6 | 7 => rand_instance(r, 1, conflict),
-            8 => rand_instance(r, 2, conflict),
+            2 | 3 | 4 => D::Instance(rand_flat(r, conflict, extras)),
+            5 | 6 | 7 => rand_instance(r, 1, conflict, extras),
+            8 => rand_instance(r, 2, conflict, extras),
             _ => {
                 // component-typed requirement (rare in practice; observed, see notes)
-                D::Component(rand_flat(r, false), rand_flat(r, conflict))
+                D::Component(rand_flat(r, false, NO_EXTRAS), rand_flat(r, conflict, NO_EXTRAS))
             }
         };
         reqs_d.push((name, d));
     }
+    count_type_export_shapes(out, &reqs_d);
     let mut reqs = Vec::new();
     if shared_collection {
         let kinds: Vec<ItemKind> = {
@@ -349,6 +448,42 @@ fn gen_wit(out: &mut Out, r: &mut Rng) {
     emit_grouped(out, &reqs, &groups, label);
 }
 
+// ---------------------------------------------------------------------------------------------
+// fixed witnesses (the same five as `c09x.rs`, which also prints a readable summary of them)
+
+fn inst(es: &[(&str, D)]) -> D {
+    D::Instance(named(es))
+}
+
+fn ty(d: D) -> D {
+    D::Type(Box::new(d))
+}
+
+fn witnesses() -> Vec<(&'static str, Vec<(&'static str, D)>)> {
+    let w1a = inst(&[("t", ty(inst(&[("a", f0())])))]);
+    let w1b = inst(&[("t", ty(inst(&[("a", f0()), ("b", f0())])))]);
+    let w1c = inst(&[("t", ty(inst(&[("c", f0())])))]);
+    vec![
+        ("W1-type-export-of-instance-type", vec![("i", w1a.clone()), ("i", w1b.clone())]),
+        ("W2-type-export-of-instance-type-3", vec![("i", w1a), ("i", w1b), ("i", w1c)]),
+        (
+            "W3-nested-instance-export",
+            vec![
+                ("i", inst(&[("x", inst(&[("a", f0())]))])),
+                ("i", inst(&[("x", inst(&[("a", f0()), ("b", f0())]))])),
+            ],
+        ),
+        ("W4-flat", vec![("i", inst(&[("a", f0())])), ("i", inst(&[("b", f0())]))]),
+        (
+            "W5-type-export-of-component-type",
+            vec![
+                ("i", inst(&[("t", ty(D::Component(vec![], named(&[("a", f0())]))))])),
+                ("i", inst(&[("t", ty(D::Component(vec![], named(&[("a", f0()), ("b", f0())]))))])),
+            ],
+        ),
+    ]
+}
+
 fn main() {
     quiet_panics();
     let args = Args::parse();
@@ -367,6 +502,21 @@ fn generate(args: &Args, seed: u64, thorough: bool, shard: usize, nshards: usize
     let tier = if thorough { "t" } else { "q" };
     let mut out = Out::create(path, &format!("c09-{tier}{seed}-{shard}of{nshards}-"));
     let n = if thorough { 20_000 } else { args.num("n", 500) } / nshards;
+    if shard == 0 {
+        // fixed witnesses first (no randomness involved), through the same path as the rest
+        for (label, reqs_d) in witnesses() {
+            let reqs_d: Vec<(String, D)> = reqs_d.into_iter().map(|(n, d)| (n.to_string(), d)).collect();
+            count_type_export_shapes(&mut out, &reqs_d);
+            let mut reqs = Vec::new();
+            for (i, (name, d)) in reqs_d.iter().enumerate() {
+                // every contributor has its own fresh collection
+                let mut t = Types::default();
+                let kind = Builder::new(&mut t, false).kind(d);
+                reqs.push(Req { types: std::rc::Rc::new(t), tid: i, name: name.clone(), kind });
+            }
+            emit(&mut out, &reqs, label);
+        }
+    }
     for i in 0..n {
         if i % 4 == 3 {
             gen_wit(&mut out, &mut r);
